@@ -35,9 +35,9 @@ QuantityDev(d, r, dev) ==
       [] r.q = "stress" -> Fn([k \in 1..Len(r.pts) |-> StressAt(d, r.c, r.pts[k][1], r.pts[k][2], r.NL, dev)])
       [] r.q = "fext"   -> Fext(d, r.forces, r.forcesInc, r.inc)
       (* non-linear quantities at a state c *)
-      [] r.q = "fint"   -> Fint(d, r.c)
-      [] r.q = "kT"     -> KT(d, r.c)
-      [] r.q = "kGc"    -> KGState(d, r.c, r.NL)
+      [] r.q = "fint"   -> FintT(d, r.c, r.taper)
+      [] r.q = "kT"     -> KTT(d, r.c, r.taper)
+      [] r.q = "kGc"    -> KGStateT(d, r.c, r.NL, r.taper)
 IsMatrixReq(r) == r.q \in {"k0", "kG0", "kM", "kA", "cA", "kAmach", "kT", "kGc"}
 Placed(M, r) == IF r.size = 0 THEN M
                 ELSE IF r.q \in {"fext", "fint"} THEN PlaceVec(M, r.size, r.col0) ELSE Place(M, r.size, r.row0, r.col0)
@@ -176,7 +176,7 @@ AtRest == NLReq =>
     /\ \A k \in 1..Size(def) : RIsZero(Fint(def, ZeroState)[k][1])
     /\ Vals(KT(def, ZeroState)) = Vals(K0Lin(def))
 (* the tangent is symmetric (every entry from its own formula) *)
-TangentSymmetric == (req # NoReq /\ req.q = "kT" /\ req.size = 0) => MSym(Vals(KTFull(def, req.c)))
+TangentSymmetric == (req # NoReq /\ req.q = "kT" /\ req.size = 0 /\ req.taper = Uniform) => MSym(Vals(KTFull(def, req.c)))
 (* the tangent is the Jacobian of the internal force: Fint is a cubic map of c, for which the 4-point
    central stencil is exact:  KT(c) dir = [Fint(c-2h dir) - 8 Fint(c-h dir) + 8 Fint(c+h dir) - Fint(c+2h dir)] / 12h *)
 Dirs(n) == { Fn([i \in 1..n |-> RFromInt(((i * 3 + 1) % 5) - 2)]), Fn([i \in 1..n |-> IF i = n THEN ROne ELSE RZero]) }
@@ -184,15 +184,22 @@ Along(c, dir, t) == Fn([i \in 1..Len(c) |-> RAdd(c[i], RMul(t, dir[i]))])
 FintV(c) == Fn([k \in 1..Size(def) |-> Fint(def, c)[k][1]])
 Stencil(f(_), h) == LET w(a, b) == RMul(RFromInt(a), b)
                     IN RDiv(RAdd(RSub(f(RMul(RFromInt(-2), h)), w(8, f(RNeg(h)))), RSub(w(8, f(h)), f(RMul(Two, h)))), RMul(RFromInt(12), h))
-TangentIsJacobian == (req # NoReq /\ req.q = "kT" /\ req.size = 0) =>
+TangentIsJacobian == (req # NoReq /\ req.q = "kT" /\ req.size = 0 /\ req.taper = Uniform) =>
     \A dir \in Dirs(Size(def)) :
         LET h == RQ(1, 4)
             Kd == MVec(OutVals, dir)
         IN \A k \in 1..Size(def) :
               LET f(t) == FintV(Along(req.c, dir, t))[k] IN Kd[k] = Stencil(f, h)
+(* with a tapered laminate the tangent is still the Jacobian of the (tapered) internal force *)
+TaperedTangentIsJacobian == (req # NoReq /\ req.q = "kT" /\ req.size = 0 /\ req.taper # Uniform) =>
+    LET dir == Fn([i \in 1..Size(def) |-> RFromInt(((i * 3 + 1) % 5) - 2)])
+        h == RQ(1, 4)
+        Kd == MVec(OutVals, dir)
+    IN \A k \in 1..Size(def) :
+          LET f(t) == FintT(def, Along(req.c, dir, t), req.taper)[k][1] IN Kd[k] = Stencil(f, h)
 (* the internal force is the gradient of the strain energy (quartic in c: the same stencil is exact),
    hence its work around any closed path vanishes *)
-ForceIsEnergyGradient == (req # NoReq /\ req.q = "fint" /\ req.size = 0) =>
+ForceIsEnergyGradient == (req # NoReq /\ req.q = "fint" /\ req.size = 0 /\ req.taper = Uniform) =>
     \A dir \in Dirs(Size(def)) :
         LET f(t) == Energy(def, Along(req.c, dir, t))
         IN RDot(Fn([k \in 1..Len(out) |-> out[k][1]]), dir) = Stencil(f, RQ(1, 4))
